@@ -1228,3 +1228,12 @@ _run_c02_22 = run
 def run(res, facts, tier):
     _run_c02_22(res, facts, tier)
     r12_nodeset_kernels(res, facts)
+
+
+_run_c02_23 = run
+
+
+def run(res, facts, tier):
+    _run_c02_23(res, facts, tier)
+    from . import c02_str
+    c02_str.run_rule(res, facts, tier)
